@@ -101,8 +101,47 @@ func RunJob(j *Job) *Result {
 		case "bfs":
 			lim.OnState = onState
 			res = BFS(j.Sc, mf, lim)
+			if res.HarnessErr != "" && !j.Sc.NoClone && len(res.Found) == 0 && (strings.Contains(res.HarnessErr, "divergence") || strings.Contains(res.HarnessErr, "clone")) {
+				// same fallback as for D-DFS: successors rebuilt by replay on fresh real objects
+				first := res.HarnessErr
+				sc := *j.Sc
+				sc.NoClone = true
+				lim2 := lim
+				lim2.Deadline = time.Now().Add(time.Duration(max(20, j.Seconds) * float64(time.Second)))
+				res2 := BFS(&sc, mf, lim2)
+				if res2.HarnessErr == "" {
+					res2.Counters = map[string]int{"reexplored_by_replay_after_clone_divergence": 1}
+					res2.Caps = append(res2.Caps, "clone-based exploration diverged from its validation replay ("+firstLine(first)+"); scenario re-explored by replay")
+					res = res2
+				}
+			}
 		case "ddfs":
-			res = DevDFS(j.Sc, mf, lim, onState)
+			runDD := func(sc *Scenario, l Limits) (r *Result) {
+				defer func() {
+					if p := recover(); p != nil {
+						r = &Result{Scenario: j.Name, Strategy: "D-DFS", HarnessErr: fmt.Sprintf("harness panic: %v", p)}
+					}
+				}()
+				return DevDFS(sc, mf, l, onState)
+			}
+			res = runDD(j.Sc, lim)
+			if res.HarnessErr != "" && !j.Sc.NoClone && len(res.Found) == 0 {
+				// The clone-based exploration and a from-scratch re-execution disagree. Clones never
+				// share memory with what a node handed out earlier, real objects may: explore the
+				// scenario again by replay only (every successor rebuilt on fresh real objects).
+				// If that run is consistent, its verdict replaces the inconclusive one.
+				first := res.HarnessErr
+				sc := *j.Sc
+				sc.NoClone = true
+				lim2 := lim
+				lim2.Deadline = time.Now().Add(time.Duration(max(20, j.Seconds) * float64(time.Second)))
+				res2 := runDD(&sc, lim2)
+				if res2.HarnessErr == "" {
+					res2.Counters = map[string]int{"reexplored_by_replay_after_clone_divergence": 1}
+					res2.Caps = append(res2.Caps, "clone-based exploration diverged from its validation replay ("+firstLine(first)+"); scenario re-explored by replay")
+					res = res2
+				}
+			}
 		default:
 			panic("harness: unknown strategy " + j.Strategy)
 		}
